@@ -367,10 +367,49 @@ def bundled_files(ctx):
         ctx.case(('bundled', os.path.basename(fpath)), True)
         if len(r2) != len(r1) or [type(x) for x in r1] != [type(x) for x in r2]:
             ctx.violation(f'C09|bundled|classes|{os.path.basename(fpath)}', 'parse -> serialise -> parse changes the number or classes of regions', {'file': fpath})
+        elif any(dict(a.visual) != dict(b.visual) or {k: v for k, v in a.meta.items()} != {k: v for k, v in b.meta.items()} for a, b in zip(r1, r2)):
+            j = next(i for i, (a, b) in enumerate(zip(r1, r2)) if dict(a.visual) != dict(b.visual) or dict(a.meta) != dict(b.meta))
+            ctx.violation(f'C09|bundled|meta-changed|{os.path.basename(fpath)}', f'region {j}: meta/visual change on parse -> serialise -> parse: {dict(r1[j].meta)} {dict(r1[j].visual)} -> {dict(r2[j].meta)} {dict(r2[j].visual)}', {'file': fpath})
         elif s3 != s2 or len(r3) != len(r2) or any(not (a == b) for a, b in zip(r2, r3)):
             ctx.violation(f'C09|bundled|fixedpoint|{os.path.basename(fpath)}', 'not a fixed point from the second cycle on', {'file': fpath})
     ctx.traces += n
     ctx.note('bundled_files', n)
+
+
+FOREIGN = [
+    'image\npoint(10,20) # point=diamond 14 color=red',
+    'image\npoint(10,20) # point=boxcircle',
+    'fk5\npoint(150.25,-20.5) # point=cross 7 width=2',
+    'image\ncircle(10,20,3) # dash=1 dashlist=8 3 color=blue',
+    'image\nbox(10,20,4,2,30) # fill=1 width=3',
+    'image\ntext(10,20) # text={hello} font="times 14 bold italic" textangle=30',
+    'image\ntext(10,20) # text={hello} font="helvetica 10 normal roman"',
+    'galactic\nellipse(150.25,-20.5,0.02,0.01,40) # tag={a} tag={b c} color=#00ff7f',
+    'image\n-circle(10,20,3) # edit=0 move=0 select=1 highlite=0',
+    'image\nline(1,2,3,4) # line=0 0 color=cyan',
+]
+
+
+def foreign_text(ctx):
+    """Hand-written DS9 lines exercising the visual vocabulary: parse -> serialise -> parse must keep every meta and visual entry."""
+    from regions import Regions
+    for text in FOREIGN:
+        ctx.case(('foreign', text), True)
+        try:
+            with warnings.catch_warnings():
+                warnings.simplefilter('ignore')
+                r1 = Regions.parse(text, format='ds9')
+                s1 = r1.serialize(format='ds9', precision=6)
+                r2 = Regions.parse(s1, format='ds9')
+                s2 = r2.serialize(format='ds9', precision=6)
+        except Exception as ex:  # noqa
+            ctx.violation(f'C09|foreign|raises|{type(ex).__name__}', f'{text!r}: {ex!r}', {'text': text})
+            continue
+        a, b = r1[0], r2[0]
+        if type(a) is not type(b) or dict(a.meta) != dict(b.meta) or dict(a.visual) != dict(b.visual) or s1 != s2:
+            key = text.split('# ')[1].split('=')[0]
+            ctx.violation(f'C09|foreign|fixedpoint|{key}', f'{text!r}: {dict(a.meta)} {dict(a.visual)} -> {s1!r} -> {dict(b.meta)} {dict(b.visual)}', {'text': text, 's1': s1, 's2': s2})
+    ctx.traces += len(FOREIGN)
 
 
 def run(ctx):
@@ -396,6 +435,7 @@ def run(ctx):
         ctx.note('replayed_states', n)
     tlc.cleanup(res.workdir)
     bundled_files(ctx)
+    foreign_text(ctx)
     trace_validation(ctx)
     ctx.assumptions += ['half-unit tolerance is inclusive (Python formats 11.25 at one decimal as 11.2); ellipse axes are written as semi-axes, so a full unit',
                         'foreign text (bundled files) is required to be a fixed point from the second cycle on; the first re-parse can only agree within the precision']
